@@ -54,7 +54,7 @@ func init() {
 		Assumptions: []string{"only scalar symbols (the object store has no set symbols)", "bare bool symbols holding null and icontains over non-ASCII are executed but not judged"},
 		Plan: func(tier core.Tier, seed int64) int {
 			if tier == core.Thorough {
-				return 2000
+				return 12000
 			}
 			return 64
 		},
